@@ -112,6 +112,10 @@ const (
 	GateCtorExit   = 2
 	GateCloseEnter = 3
 	GateCtxDone    = 4
+	// GateInternal: a schedule point inside godi itself, between two steps
+	// that are not atomic with respect to each other (build-tagged hook
+	// verifPoint in /repo); Point names the place.
+	GateInternal = 5
 )
 
 type GatePoint struct {
@@ -119,6 +123,7 @@ type GatePoint struct {
 	Inv   *Inv
 	Entry *Entry
 	Goid  int64
+	Point string
 }
 
 // World is the per-case universe: ledger, fault plan, registered functions.
@@ -162,9 +167,17 @@ func NewWorld(cfg *Config) (*World, error) {
 func (w *World) SetGate(f func(GatePoint)) {
 	if f == nil {
 		w.gateFn.Store(nil)
+		godi.VerifSetPointHook(nil)
 		return
 	}
 	w.gateFn.Store(&f)
+	// godi's internal schedule points are reported to the world that installed
+	// a gate last (one controlled program runs at a time in a process)
+	godi.VerifSetPointHook(func(point string) {
+		if w.gateFn.Load() != nil {
+			w.gate(GatePoint{Kind: GateInternal, Point: point, Goid: Goid()})
+		}
+	})
 }
 
 func (w *World) gate(gp GatePoint) {
